@@ -318,7 +318,9 @@ class X12Reader(X12Base):
             if src_file_obj == '-':
                 self.fd_in = sys.stdin
             else:
-                self.fd_in = open(src_file_obj, 'r', encoding='ascii')
+                # X12 is ASCII: any other byte is read as a replacement character and
+                # reported as an invalid character where it stands
+                self.fd_in = open(src_file_obj, 'r', encoding='ascii', errors='replace')
                 self.need_to_close = True
         X12Base.__init__(self)
         try:
